@@ -9,13 +9,63 @@
 -/
 import XotModel.Lemmas.InnerStartTokens
 import XotModel.Lemmas.Scope
-import XotModel.Lemmas.RepairRoundTrip
+import XotModel.Lemmas.CanonDropNs
+import XotModel.Lemmas.RoundTripDeepEqual
+import XotModel.Lemmas.RoundTripItems
 import XotModel.Lemmas.SerTokensLexTop
 
 namespace XotModel
 open XotModel.Repair
 
 variable {env : Env}
+
+/-! ### Small facts (local copies: the C10 development, Lemmas/Repair*.lean, has them under names that
+    clash with lemma files of other properties importing Props/C01) -/
+
+theorem ist_nodeOK_of_allNodes {v : Value} {ks : List Tree} (h : (Tree.node v ks).allNodes (nodeOK env) = true) :
+    nodeOK env v ks = true := by
+  rw [allNodes_node, Bool.and_eq_true] at h; exact h.1
+
+theorem ist_allNodes_at? {p : Value → List Tree → Bool} : ∀ (path : Path) (t sub : Tree),
+    t.allNodes p = true → t.at? path = some sub → sub.allNodes p = true
+  | [], t, sub, h, hat => by
+    simp only [Tree.at?, Option.some.injEq] at hat
+    subst hat
+    exact h
+  | i :: rel, .node v ks, sub, h, hat => by
+    rw [at?_cons] at hat
+    cases hk : ks[i]? with
+    | none => rw [hk] at hat; cases hat
+    | some k =>
+      rw [hk] at hat
+      exact ist_allNodes_at? rel k sub (allNodes_kid h (List.mem_of_getElem? hk)) hat
+
+theorem ist_noAdjText_cons_ns (p ns : Nat) (kk l : List Tree) :
+    noAdjText (Tree.node (.namespace p ns) kk :: l) = noAdjText l := by
+  cases l with
+  | nil => rfl
+  | cons b r => simp [noAdjText, Tree.value, Value.isText]
+
+theorem ist_nsPrefixes_cons_ns (p ns : Nat) (kk ks : List Tree) :
+    nsPrefixes (.node (.namespace p ns) kk :: ks) = p :: nsPrefixes ks := by
+  simp only [nsPrefixes, List.filterMap_cons, Tree.value]
+
+theorem ist_attrNames_cons_ns (p ns : Nat) (kk ks : List Tree) :
+    attrNames (.node (.namespace p ns) kk :: ks) = attrNames ks := by
+  simp only [attrNames, List.filterMap_cons, Tree.value]
+
+theorem ist_idsList_cons_ns_leaf (p ns : Nat) (ks : List Tree) :
+    xmlIdValues.idsList env (.node (.namespace p ns) [] :: ks) = xmlIdValues.idsList env ks := by
+  simp only [xmlIdValues.idsList, xmlIdValues, List.nil_append]
+
+theorem ist_orderedKids_cons_ns (p ns : Nat) (kk ks : List Tree) (h : OrderedKids ks) :
+    OrderedKids (.node (.namespace p ns) kk :: ks) :=
+  List.pairwise_cons.mpr ⟨fun x _ => by simp [Tree.value, Value.phase], h⟩
+
+theorem ist_nodeOK_namespace_leaf {p ns : Nat} (h : valueOK env (.namespace p ns) = true) :
+    (Tree.node (.namespace p ns) []).allNodes (nodeOK env) = true := by
+  rw [allNodes_node]
+  simp [nodeOK, h, OrderedKids, KindsOk, UniqueKids, attrNames, nsPrefixes, noAdjText]
 
 /-! ### Ancestors -/
 
@@ -92,7 +142,7 @@ theorem nsPrefixes_nsLeaves_append (X : List (Nat × Nat)) (ks : List Tree) :
   | nil => rfl
   | cons d X ih =>
     show nsPrefixes (Tree.node (.namespace d.1 d.2) [] :: (nsLeaves X ++ ks)) = _
-    rw [nsPrefixes_cons_ns, ih]
+    rw [ist_nsPrefixes_cons_ns, ih]
     rfl
 
 theorem attrNames_nsLeaves_append (X : List (Nat × Nat)) (ks : List Tree) :
@@ -101,7 +151,7 @@ theorem attrNames_nsLeaves_append (X : List (Nat × Nat)) (ks : List Tree) :
   | nil => rfl
   | cons d X ih =>
     show attrNames (Tree.node (.namespace d.1 d.2) [] :: (nsLeaves X ++ ks)) = _
-    rw [attrNames_cons_ns, ih]
+    rw [ist_attrNames_cons_ns, ih]
 
 theorem noAdjText_nsLeaves_append (X : List (Nat × Nat)) (ks : List Tree) :
     noAdjText (nsLeaves X ++ ks) = noAdjText ks := by
@@ -109,7 +159,7 @@ theorem noAdjText_nsLeaves_append (X : List (Nat × Nat)) (ks : List Tree) :
   | nil => rfl
   | cons d X ih =>
     show noAdjText (Tree.node (.namespace d.1 d.2) [] :: (nsLeaves X ++ ks)) = _
-    rw [noAdjText_cons_notText (by rfl), ih]
+    rw [ist_noAdjText_cons_ns, ih]
 
 theorem idsList_nsLeaves_append (X : List (Nat × Nat)) (ks : List Tree) :
     xmlIdValues.idsList env (nsLeaves X ++ ks) = xmlIdValues.idsList env ks := by
@@ -117,14 +167,13 @@ theorem idsList_nsLeaves_append (X : List (Nat × Nat)) (ks : List Tree) :
   | nil => rfl
   | cons d X ih =>
     show xmlIdValues.idsList env (Tree.node (.namespace d.1 d.2) [] :: (nsLeaves X ++ ks)) = _
-    rw [idsList_cons_ns, ih]
-    rfl
+    rw [ist_idsList_cons_ns_leaf, ih]
 
 theorem orderedKids_nsLeaves_append (X : List (Nat × Nat)) (ks : List Tree) (h : OrderedKids ks) :
     OrderedKids (nsLeaves X ++ ks) := by
   induction X with
   | nil => exact h
-  | cons d X ih => exact orderedKids_cons_ns d.1 d.2 [] _ ih
+  | cons d X ih => exact ist_orderedKids_cons_ns d.1 d.2 [] _ ih
 
 /-- Putting `valueOK` declaration leaves whose prefixes are pairwise distinct and not declared by
     the element in front of the children of a `nodeOK` element gives a `nodeOK` element. -/
@@ -133,7 +182,7 @@ theorem nodeOK_prepend_ns (name : Nat) (ks : List Tree) (X : List (Nat × Nat))
     (hv : ∀ d ∈ X, valueOK env (.namespace d.1 d.2) = true)
     (hnd : (X.map Prod.fst ++ nsPrefixes ks).Nodup) :
     (Tree.node (.element name) (nsLeaves X ++ ks)).allNodes (nodeOK env) = true := by
-  obtain ⟨hord, hkinds, huniq, hnoadj, hval⟩ := (nodeOK_iff env _ _).mp (nodeOK_of_allNodes hS)
+  obtain ⟨hord, hkinds, huniq, hnoadj, hval⟩ := (nodeOK_iff env _ _).mp (ist_nodeOK_of_allNodes hS)
   rw [allNodes_node, Bool.and_eq_true, List.all_eq_true]
   refine ⟨(nodeOK_iff env _ _).mpr ⟨orderedKids_nsLeaves_append X ks hord,
     ⟨fun h => (by cases h), fun h => (by cases h), ?_⟩, ⟨?_, ?_⟩, ?_, hval⟩, ?_⟩
@@ -150,7 +199,7 @@ theorem nodeOK_prepend_ns (name : Nat) (ks : List Tree) (X : List (Nat × Nat))
     rcases List.mem_append.mp hk with h | h
     · simp only [nsLeaves, List.mem_map] at h
       obtain ⟨d, hd, rfl⟩ := h
-      exact nodeOK_namespace_leaf (hv d hd)
+      exact ist_nodeOK_namespace_leaf (hv d hd)
     · exact allNodes_kid hS h
 
 /-- The document holding just a `nodeOK` element without repeated `xml:id` values is `Representable`. -/
@@ -232,9 +281,9 @@ theorem standalone_representable (henv : envOK env = true) (t : Tree) (q : Path)
       Representable env (.node .document [.node (.element name) (nsLeaves X ++ ks)]) = true := by
   obtain ⟨rest, hchain⟩ := ancestorsOrSelf_of_at? t q _ hat
   refine ⟨_, standalone_eq t q name ks rest hat hchain, ?_⟩
-  have hsub : (Tree.node (.element name) ks).allNodes (nodeOK env) = true := allNodes_at? q t _ hok hat
+  have hsub : (Tree.node (.element name) ks).allNodes (nodeOK env) = true := ist_allNodes_at? q t _ hok hat
   have hch := allNodes_chain q t _ hok hchain
-  obtain ⟨hord, _, _, _, _⟩ := (nodeOK_iff env _ _).mp (nodeOK_of_allNodes hsub)
+  obtain ⟨hord, _, _, _, _⟩ := (nodeOK_iff env _ _).mp (ist_nodeOK_of_allNodes hsub)
   apply representable_document_single henv
   · apply nodeOK_prepend_ns name ks _ hsub
     · intro d hd
@@ -242,7 +291,7 @@ theorem standalone_representable (henv : envOK env = true) (t : Tree) (q : Path)
       cases c with
       | node cv cks => exact nsDecls_valueOK env (hch _ hc) hdc
     · rw [List.nodup_append]
-      obtain ⟨_, _, huniq, _, _⟩ := (nodeOK_iff env _ _).mp (nodeOK_of_allNodes hsub)
+      obtain ⟨_, _, huniq, _, _⟩ := (nodeOK_iff env _ _).mp (ist_nodeOK_of_allNodes hsub)
       refine ⟨inheritedExtra_keys_nodup _ _, huniq.2, ?_⟩
       intro a ha b hb hab
       subst hab
@@ -286,7 +335,7 @@ theorem standalone_declsNamed (t : Tree) (q : Path) (name : Nat) (ks : List Tree
     (Tree.node .document [.node (.element name)
       (nsLeaves (inheritedExtra (namespacesInScopeChain (.node (.element name) ks :: rest))
         (.node (.element name) ks)) ++ ks)]).allNodes (declsNamed env) = true := by
-  have hsub : (Tree.node (.element name) ks).allNodes (declsNamed env) = true := allNodes_at? q t _ ht hat
+  have hsub : (Tree.node (.element name) ks).allNodes (declsNamed env) = true := ist_allNodes_at? q t _ ht hat
   have hch := allNodes_chain q t _ ht hchain
   rw [allNodes_node, Bool.and_eq_true, List.all_eq_true]
   refine ⟨?_, fun k hk => ?_⟩
